@@ -35,6 +35,7 @@ Record kcase := {
   k_store : store; k_hdr : header; k_items : list (item body);
   k_err : option rerr;                               (* request-level error raised by process_request *)
   k_results : list (Z * option (list Z) * bool);     (* (operation, batch item id, success) per response item *)
+  k_count : Z;                                       (* Batch Count of the response header (0 when there is no response) *)
   k_trace : list (bool * bool * option Z);           (* observed around each executed item *)
   k_final : store }.
 
@@ -53,6 +54,7 @@ Definition check_case (c : kcase) : bool :=
   | (inr rs, st') =>
       opt_eqb rerr_eqb None (k_err c) &&
       list_eqb res_eqb (map (fun r => (r_op r, r_bid r, r_ok r)) rs) (k_results c) &&
+      (response_batch_count rs =? k_count c) &&
       list_eqb trace_eqb (item_trace (k_hdr c) (continues (k_hdr c)) (open_session (k_store c)) None (k_items c)) (k_trace c) &&
       store_eqb st' (k_final c)
   end.
